@@ -520,7 +520,8 @@ struct Executor {
     void do_create(SesCtx &sc) {
         if (sc.created) return;
         status(&sc, "create", false);
-        int st = ad_create(&sc.h, sc.s->codec, sc.s->role, sc.s->id);
+        int st = ad_create(&sc.h, sc.s->codec, sc.s->both ? 3 : sc.s->role, sc.s->id);
+        if (sc.s->both) count("sessions_created_as_encoder_and_decoder");
         status_done(); res.lib_calls++;
         Hash64 x; trace_step(sc, "CREATE", -1, st, 0, x);
         if (st != 0 || !sc.h) { viol({"C10"}, "status", std::string("create-failed:codec=") + cn(sc), "status " + std::to_string(st), &sc); sc.dead = true; return; }
@@ -944,6 +945,7 @@ struct Executor {
         if (!sc.configured || sc.released) return;
         if (sc.finalised && !is_rs(sc)) return;
         const std::string &kind = op.arg;
+        if (sc.s->both && kind.rfind("role:", 0) == 0) return;
         int st = -1; bool is_bool = false; int bval = 0;
         uint8_t dummy[8] = {0};
         void *nulltab[1] = {nullptr};
